@@ -12,7 +12,7 @@ DEFAULT = dict(
     partial_term=True, chords=True, acc=True, sigs=True, grace=True, rest_in_chord=True, sep_chars=False,
     signatures=True, supported_clefs_only=False, others=True, force_clef=False, max_body=10, max_sub=3, max_width=7,
     barlines=True, final_barline=True, numbered_bars=False, null_weight=2, interp_rows=True, rule_iv=True,
-    sig_in_split=False,
+    sig_in_split=False, adjacent_joins=True,
 )
 
 PROFILES = {
@@ -118,17 +118,26 @@ def _join_row(draw, P, paths):
     runs = _runs(paths.sp)
     if not runs:
         return None
-    a, b = draw(st.sampled_from(runs))
-    if b - a >= 2 and draw(st.booleans()):
-        if draw(st.booleans()):
-            a += 1
-        else:
-            b -= 1
+    # one run always, every further run (of another spine) with probability 1/2: several joins on one line
+    first = draw(st.sampled_from(runs))
+    chosen = []
+    for r in runs:
+        if r == first or draw(st.booleans()):
+            a, b = r
+            if not P.get('adjacent_joins', True) and r != first and any(a == cb + 1 or b == ca - 1 for ca, cb in chosen + [first]):
+                continue  # two join groups side by side are ambiguous for a text-level reader
+            if b - a >= 2 and draw(st.booleans()):
+                if draw(st.booleans()):
+                    a += 1
+                else:
+                    b -= 1
+            chosen.append((a, b))
     cells, new = [], []
     for k, s in enumerate(paths.sp):
-        if a <= k <= b:
+        run = next(((a, b) for a, b in chosen if a <= k <= b), None)
+        if run:
             cells.append(G.op_cell('*v'))
-            if k == a:
+            if k == run[0]:
                 new.append(s)
         else:
             cells.append(G.nullinterp_cell())
@@ -319,12 +328,17 @@ def measure_documents(draw, MP):
         for _ in range(draw(st.integers(0, 3))):
             x = draw(st.integers(0, 11))
             if x < 2 and MP['splits'] and not open_split:
-                r = _split_row(draw, profile('full', max_sub=2, max_width=6), paths)
+                SP = profile('full', max_sub=3, max_width=7, adjacent_joins=False)
+                r = _split_row(draw, SP, paths)
                 if r is None:
                     continue
-                # only kern spines are split in this profile
                 rows.append(r)
                 rows.append(data_row())
+                if draw(st.integers(0, 2)) == 0:
+                    r2 = _split_row(draw, SP, paths)  # a second split, possibly nested in one of the new sub-spines
+                    if r2:
+                        rows.append(r2)
+                        rows.append(data_row())
                 if MP['sig_changes'] and draw(st.booleans()):
                     cells = []
                     for k in range(width()):
@@ -334,20 +348,11 @@ def measure_documents(draw, MP):
                         rows.append(_row(cells))
                         rows.append(data_row())
                 if MP['rejoin_before_bar'] or draw(st.booleans()):
+                    # re-join everything before the barline, in whatever grouping (pairwise, three-way, several per row)
                     while _runs(paths.sp):
-                        # join every run completely
-                        a, bb = _runs(paths.sp)[0]
-                        cells, new = [], []
-                        for k, s in enumerate(paths.sp):
-                            if a <= k <= bb:
-                                cells.append(G.op_cell('*v'))
-                                if k == a:
-                                    new.append(s)
-                            else:
-                                cells.append(G.nullinterp_cell())
-                                new.append(s)
-                        paths.sp = new
-                        rows.append(_row(cells))
+                        rows.append(_join_row(draw, SP, paths))
+                        if _runs(paths.sp) and draw(st.integers(0, 2)) == 0:
+                            rows.append(data_row())
                 else:
                     open_split = True
             elif x < 4 and MP['sig_changes']:
@@ -371,18 +376,7 @@ def measure_documents(draw, MP):
                 rows.append(data_row())
         if open_split and (m == nm - 1 or draw(st.booleans())):
             while _runs(paths.sp):
-                a, bb = _runs(paths.sp)[0]
-                cells, new = [], []
-                for k, s in enumerate(paths.sp):
-                    if a <= k <= bb:
-                        cells.append(G.op_cell('*v'))
-                        if k == a:
-                            new.append(s)
-                    else:
-                        cells.append(G.nullinterp_cell())
-                        new.append(s)
-                paths.sp = new
-                rows.append(_row(cells))
+                rows.append(_join_row(draw, profile('full', adjacent_joins=False), paths))
             open_split = False
     final = draw(st.integers(0, 2)) > 0
     if final:
